@@ -61,9 +61,8 @@ def valueEq (strict : Bool) (be : Bool) (vr vr' : VR) (v v' : PValue) : Bool :=
     let padEq := fun (x y : Bytes) => x == y || (x.length % 2 == 1 && y == x ++ [0])
     let na := (encodePrimitive false v).1
     let nb := (encodePrimitive false v').1
-    padEq a b &&
-    (a.isEmpty || valueKind v == valueKind v' ||
-      ((valueKind v == "u8" || valueKind v' == "u8") && (!strict || padEq na nb)))
+    if a.isEmpty || valueKind v == valueKind v' then padEq a b
+    else (valueKind v == "u8" || valueKind v' == "u8") && (if strict then padEq na nb else padEq a b)
 
 def fragEq (a b : Bytes) : Bool := a == b || (a.length % 2 == 1 && b == a ++ [0])
 
